@@ -7,6 +7,7 @@ import (
 	"time"
 
 	"github.com/rulego/streamsql/rsql"
+	"github.com/rulego/streamsql/types"
 )
 
 // ParseScenario feeds texts to rsql.Parse (C11): layout variants of one statement, or arbitrary token sequences.
@@ -61,16 +62,45 @@ func projectConfig(sql string) (proj Ev, errs int, pan int) {
 	sort.Strings(alias)
 	simple := append([]string{}, cfg.SimpleFields...) // "expr:alias" texts as the parser normalised them (exact, not squashed)
 	mr := ""
+	mrWithin, mrSkip, mrRows, mrSym, mrNDef, mrNMeas, mrNSub := int64(-1), -1, -1, "", 0, 0, 0
+	mrPart := []string{}
 	if cfg.MatchRecognize != nil {
-		mr = squash(fmt.Sprintf("%+v", *cfg.MatchRecognize))
+		m := cfg.MatchRecognize
+		cp := *m
+		cp.Pattern = nil // a pointer: rendered separately as a term
+		// expression texts keep the written letter case of function names (MATCH_NUMBER / match_number): compared case-insensitively
+		mr = strings.ToUpper(squash(fmt.Sprintf("%+v", cp))) + "|" + patternTerm(m.Pattern)
+		mrWithin, mrSkip, mrRows, mrSym = int64(m.Within/time.Microsecond), int(m.Skip), int(m.RowsPerMatch), m.SkipSymbol
+		mrPart = append(mrPart, m.PartitionBy...)
+		mrNDef, mrNMeas, mrNSub = len(m.Defines), len(m.Measures), len(m.Subsets)
 	}
 	return Ev{
+		"mr_within_us": mrWithin, "mr_skip": mrSkip, "mr_rows": mrRows, "mr_sym": mrSym, "mr_part": mrPart, "mr_ndef": mrNDef, "mr_nmeas": mrNMeas, "mr_nsub": mrNSub,
 		"fields": fo, "groups": groups, "where": squash(cond), "having": squash(cfg.Having), "limit": cfg.Limit, "distinct": b2i(cfg.Distinct),
 		"order": order, "joins": joins, "wtype": strings.ToLower(cfg.WindowConfig.Type), "wparams": params, "tsprop": cfg.WindowConfig.TsProp,
 		"unit": int64(cfg.WindowConfig.TimeUnit / time.Microsecond), "moo": int64(cfg.WindowConfig.MaxOutOfOrderness / time.Millisecond),
 		"al": int64(cfg.WindowConfig.AllowedLateness / time.Millisecond), "trigger": squash(cfg.WindowConfig.TriggerCondition),
 		"source": cfg.SourceAlias, "alias": alias, "mr": mr, "nsel": len(cfg.FieldOrder), "simple": simple,
 	}, 0, 0
+}
+
+// patternTerm renders a pattern tree as a term (kinds, symbols, quantifier bounds).
+func patternTerm(p *types.PatternNode) string {
+	if p == nil {
+		return "nil"
+	}
+	out := fmt.Sprintf("k%d[%s]", int(p.Kind), p.Symbol)
+	if p.Quant != nil {
+		out += fmt.Sprintf("{%d,%d,%v}", p.Quant.Min, p.Quant.Max, p.Quant.Greedy)
+	}
+	if len(p.Children) > 0 {
+		cs := []string{}
+		for _, c := range p.Children {
+			cs = append(cs, patternTerm(c))
+		}
+		out += "(" + strings.Join(cs, ",") + ")"
+	}
+	return out
 }
 
 // RunParse parses every text with a watchdog.
